@@ -229,6 +229,53 @@ func c20Units(c *Ctx, p *Prog) {
 		units2[constant.StringVal(kv.K)] = b
 	}
 	fmtInt := p.Func(p.Times, "fmtInt")
+	// a component is printed exactly when IT is non-zero: the innermost "x > 0" test around a digit writer tests the
+	// value that is written (sibling blocks copied from one another keep the neighbour's test otherwise)
+	nG := 0
+	var fmtCalls []ssa.CallInstruction
+	{
+		var tree []*ssa.Function
+		for fn := range staticReach([]*ssa.Function{sdf}, func(f *ssa.Function) bool { return f.Pkg != p.Times }) {
+			tree = append(tree, fn)
+		}
+		sort.Slice(tree, func(i, j int) bool { return shortName(tree[i]) < shortName(tree[j]) })
+		for _, fn := range tree {
+			fmtCalls = append(fmtCalls, callsTo(fn, fmtInt)...)
+		}
+	}
+	for _, cs := range fmtCalls {
+		gs := guardsOf(cs.Block())
+		if len(gs) == 0 {
+			continue
+		}
+		g := gs[len(gs)-1]
+		cond, neg := normCond(g.If.Cond)
+		bo, ok := cond.(*ssa.BinOp)
+		if !ok || (g.Succ == 0) == neg {
+			continue
+		}
+		z, isC := constInt(bo.Y)
+		if !isC || z != 0 || (bo.Op != token.GTR && bo.Op != token.NEQ) {
+			continue
+		}
+		nG++
+		arg := cs.Common().Args[1]
+		key := fmt.Sprintf("component-test#%d", nG)
+		same := strip(arg) == strip(bo.X)
+		if ab, isB := strip(arg).(*ssa.BinOp); isB && (ab.Op == token.REM || ab.Op == token.QUO) && strip(ab.X) == strip(bo.X) {
+			same = true // the low part of the tested running value (u % 60 under u > 0)
+		}
+		if la, okA := strip(arg).(*ssa.UnOp); okA && la.Op == token.MUL {
+			if lb, okB := strip(bo.X).(*ssa.UnOp); okB && lb.Op == token.MUL && sameCell(la.X, lb.X, 0) {
+				same = true // two reads of the same cell (parts[i], part.value)
+			}
+		}
+		r.Check(same, "R20.2", key, p.Pos(instrPos(cs)), "the component written is the one tested non-zero",
+			fmt.Sprintf("the digit writer at %s prints one component under the non-zero test of another (%s tested at %s): the component is dropped when the other one is zero and printed as \"0\"/empty when only the other is set, so the text is another duration", p.Pos(instrPos(cs)), bo.X.Name(), p.Pos(instrPos(g.If))))
+	}
+	if nG < 1 {
+		r.Ok("R20.2", "component-test", p.FuncPos(sdf), "no digit writer sits directly under a non-zero test of a component (%d digit-writer call(s) in the formatter)", len(fmtCalls))
+	}
 	n := 0
 	var fracParam *ssa.Parameter
 	for _, q := range sdf.Params {
@@ -576,6 +623,25 @@ func usedInLoop(al *ssa.Alloc) bool {
 				}
 			}
 		}
+	}
+	return false
+}
+
+// sameCell: two address expressions denote the same cell (same base value, same field / index path).
+func sameCell(a, b ssa.Value, depth int) bool {
+	if a == b {
+		return true
+	}
+	if depth > 4 {
+		return false
+	}
+	switch x := a.(type) {
+	case *ssa.FieldAddr:
+		y, ok := b.(*ssa.FieldAddr)
+		return ok && x.Field == y.Field && sameCell(x.X, y.X, depth+1)
+	case *ssa.IndexAddr:
+		y, ok := b.(*ssa.IndexAddr)
+		return ok && x.Index == y.Index && sameCell(x.X, y.X, depth+1)
 	}
 	return false
 }
